@@ -152,6 +152,21 @@ def image_search(rep, NQ, a, b, c, o, cv, qs, worst):
     return False
 
 
+def tall_density_search(rep, NQ, worst):
+    """failing-input search, second stage (once per run, after a correspondence disagreement that neither fails the
+    property itself nor on its location-scale images): the members on which an error in ppf is amplified most by the
+    cdf — c in {1, 2} with small modelled noise (density up to ~1/sqrt(s) resp. 1/s-free spikes at the end point) —
+    at levels approaching both ends"""
+    qs = [10.0 ** -k for k in range(1, 7)] + [1 - 10.0 ** -k for k in range(1, 7)] + np.linspace(0.02, 0.98, 25).tolist()
+    for c in (1, 2, 3):
+        for s in (1.5e-6, 3e-6, 1e-5, 3e-5, 1e-4, 3e-4, 1e-3, 1e-2):
+            for cv in (False, True):
+                rep.count("tall_density_members_searched")
+                if clauses_at(rep, NQ, 0.0, 1.0, c, s, cv, qs, worst, "tall-density family search after a disagreement"):
+                    return True
+    return False
+
+
 def run(seed, tier, replay=None):
     from opda.parametric import NoisyQuadraticDistribution as NQ
     warnings.simplefilter("ignore")
@@ -190,6 +205,7 @@ def run(seed, tier, replay=None):
         rep.count("width=1e%d" % (round(math.log10(b - a)) if b > a else 0) if b > a else "width=0")
     replies = drv.run(reqs)
     images_left = 6          # disagreeing distributions whose location-scale images are searched
+    family_searched = False  # second-stage search (tall-density members), at most once per run
 
     n_ident = n_cmp = 0
     searched = set()
@@ -271,7 +287,9 @@ def run(seed, tier, replay=None):
             if ok and images_left > 0 and di not in searched:
                 searched.add(di)
                 images_left -= 1
-                image_search(rep, NQ, a, b, c, o, cv, qs, worst)
+                if not image_search(rep, NQ, a, b, c, o, cv, qs, worst) and not family_searched:
+                    family_searched = True
+                    tall_density_search(rep, NQ, worst)
             if ok:
                 rep.disagree(op="noisy.ppf", input=inp_of(a, b, c, o, cv, q), model=mv, impl=y, tol=tol, margin=mm,
                              first_tie_step=mk, note="model and implementation differ by more than 1e-8 (b-a+12o) with no "
